@@ -29,10 +29,14 @@ TOOLS = ("nvm", "genC")          # nano_virt --emit-nvm  /  nanoc -S
 # ------------------------------------------------------------------------------------------------------------
 # programs
 # ------------------------------------------------------------------------------------------------------------
-class Prog:
-    __slots__ = ("idx", "kind", "name", "files", "main", "root", "src", "hash", "note", "cfgs", "deep")
+T1 = "t1-a-second-and-longer-temporary-directory"      # the other TMPDIR (different length on purpose)
 
-    def __init__(self, kind, name, files, main, note=""):
+
+class Prog:
+    __slots__ = ("idx", "kind", "name", "files", "main", "root", "src", "hash", "note", "cfgs", "deep", "cfg_names")
+
+    def __init__(self, kind, name, files, main, note="", cfg_names=None):
+        self.cfg_names = cfg_names    # None = the whole matrix; else the names of the configurations to run (+ baseline)
         self.kind = kind
         self.name = name
         self.files = files            # relative name -> bytes
@@ -53,7 +57,7 @@ class Prog:
             os.makedirs(os.path.dirname(p), exist_ok=True)
             with open(p, "wb") as f:
                 f.write(data)
-        for d in ("c", "t0", "t1", "home", "o"):
+        for d in ("c", "t0", T1, "home", "o"):
             os.makedirs(os.path.join(self.root, d), exist_ok=True)
         # a working directory whose path is >= 200 characters long
         deep = os.path.join(self.root, "d")
@@ -401,6 +405,99 @@ shadow main { assert (== (main) 0) }
     return out
 
 
+# ---- family: a `match` expression (its arm bindings are appended to the compiler's symbol table while the expression is
+# being checked) in every statement position, behind k padding declarations.  The symbol table is a realloc'ed array that
+# doubles when full, so for some k the arm bindings make it move exactly while the enclosing statement is being processed:
+# any `Symbol *` the compiler kept across that point is stale, and what it reads then depends on what free() left behind
+# (MALLOC_PERTURB_).  k is swept because the critical values depend on everything declared before.
+SWEEP_MATCH_I = "(match r { Valid(v) => (* v.value scale), Missing(m) => 5, Stale(s) => 7 })"
+SWEEP_MATCH_F = "(match r { Valid(v) => (* v.weight 2.0), Missing(m) => 0.5, Stale(s) => 0.25 })"
+SWEEP_CONSTRUCTS = [
+    ("set", "    set acc %(I)s\n"),
+    ("push-float", "    set xs (array_push xs %(F)s)\n"),
+    ("push-int", "    set ys (array_push ys %(I)s)\n"),
+    ("let", "    let y: int = %(I)s\n    set acc y\n"),
+    ("call-arg", "    set acc (helper %(I)s)\n"),
+    ("array-set", "    (array_set ys 0 %(I)s)\n"),
+    ("binop", "    set acc (+ acc %(I)s)\n"),
+    ("if-cond", "    if (> %(I)s 3) {\n        set acc 1\n    }\n"),
+    ("while-cond", "    while (< acc %(I)s) {\n        set acc (+ acc 1)\n    }\n"),
+    ("println", "    (println %(I)s)\n"),
+    ("match-stmt", "    match r {\n        Valid(v) => { set acc v.value }\n        Missing(m) => { set acc m.code }\n"
+                   "        Stale(s) => { set acc s.age }\n    }\n"),
+    ("set-float", "    set fsum (+ fsum %(F)s)\n"),
+]
+SWEEP_CFGS = ("baseline", "perturb-01", "perturb-a5", "perturb-ff")
+SWEEP_CFGS_THOROUGH = ("baseline", "perturb-01", "perturb-55", "perturb-a5", "perturb-aa", "perturb-ff", "mmap-all", "arena-max")
+
+
+def _sweep_programs(kmax, cfg_names):
+    out = []
+    for cname, body in SWEEP_CONSTRUCTS:
+        for k in range(kmax + 1):
+            pads = "".join("    let p%d: int = %d\n" % (i, i) for i in range(k))
+            text = """union Reading {
+    Valid { value: int, weight: float },
+    Missing { code: int },
+    Stale { age: int }
+}
+
+fn helper(n: int) -> int {
+    return (+ n 1)
+}
+shadow helper { assert (== (helper 1) 2) }
+
+fn collect(r: Reading, scale: int) -> int {
+    let mut acc: int = 0
+    let mut fsum: float = 0.0
+    let mut xs: array<float> = []
+    let mut ys: array<int> = [0, 0]
+%s%s    if (> fsum 100.0) {
+        set acc (+ acc 1)
+    }
+    return (+ acc (+ (array_length xs) (at ys 0)))
+}
+
+shadow collect {
+    assert (>= (collect Reading.Valid { value: 2, weight: 1.5 } 3) 0)
+}
+
+fn main() -> int {
+    (println (collect Reading.Missing { code: 3 } 1))
+    return 0
+}
+shadow main { assert (== (main) 0) }
+""" % (pads, body % {"I": SWEEP_MATCH_I, "F": SWEEP_MATCH_F})
+            out.append(Prog("sweep", "sweep-%s-k%02d" % (cname, k), {"main.nano": text.encode()}, "main.nano",
+                            note="match in %s position behind %d padding lets" % (cname, k), cfg_names=cfg_names))
+    return out
+
+
+# ---- family: top-level immutable `let` initialised from a builtin that reads the environment of the COMPILER process when
+# the initialiser is evaluated at compile time (cwd, TMPDIR)
+IMPURE_CFGS = ("baseline", "repeat", "cwd-deep", "barename", "tmpdir", "relpath", "all-different")
+
+
+def _impure_programs():
+    out = []
+    for name, init, typ, use in (
+            ("getcwd-int", "(str_length (getcwd))", "int", "(println N)"),
+            ("getcwd-bool", "(> (str_length (getcwd)) 150)", "bool", "if N {\n        (println 1)\n    }"),
+            ("getenv-int", "(str_length (getenv \"TMPDIR\"))", "int", "(println N)"),
+            ("getcwd-string", "(getcwd)", "string", "(println N)")):
+        text = """let N: %s = %s
+
+fn main() -> int {
+    %s
+    return 0
+}
+shadow main { assert (== (main) 0) }
+""" % (typ, init, use)
+        out.append(Prog("impure-const", "impure-const-" + name, {"main.nano": text.encode()}, "main.nano",
+                        note="top-level immutable let = %s" % init, cfg_names=IMPURE_CFGS))
+    return out
+
+
 BAD_FUNCS = [
     ("unknown-identifier", "fn nlv_bad_%(n)d() -> int {\n    return (+ nlv_undefined_name_%(n)d 1)\n}\nshadow nlv_bad_%(n)d { assert true }\n"),
     ("type-mismatch-return", "fn nlv_bad_%(n)d() -> int {\n    return \"text %(n)d\"\n}\nshadow nlv_bad_%(n)d { assert true }\n"),
@@ -568,9 +665,9 @@ def _witness_programs():
 # configurations
 # ------------------------------------------------------------------------------------------------------------
 class Cfg:
-    __slots__ = ("name", "cwd", "inp", "tool", "tmp", "env", "prefix", "mtime")
+    __slots__ = ("name", "cwd", "inp", "tool", "tmp", "env", "prefix", "mtime", "pre")
 
-    def __init__(self, name, cwd="c", inp="abs", tool="abs", tmp="t0", env=None, prefix=(), mtime=None):
+    def __init__(self, name, cwd="c", inp="abs", tool="abs", tmp="t0", env=None, prefix=(), mtime=None, pre=None):
         self.name = name      # = the dimension that differs from the baseline
         self.cwd = cwd        # "c" (short) | "deep" | "src"
         self.inp = inp        # "abs" | "rel" (relative to cwd; bare file name when cwd == src)
@@ -579,6 +676,10 @@ class Cfg:
         self.env = env or {}
         self.prefix = tuple(prefix)
         self.mtime = mtime
+        # history of the output paths: None = they do not exist | "longer" / "shorter" = a stale file of another length is
+        # there | "symlink" = the path is a symlink to a stale longer file | "bigger" = a BIGGER revision of the same
+        # program was compiled to the same paths just before (edit/compile cycle in which the program shrinks)
+        self.pre = pre
 
 
 def _unrelated_env(rng):
@@ -597,17 +698,24 @@ def _configs(rng):
         Cfg("repeat"),                                   # different pid and time only
         Cfg("mtime", mtime=978307200 + rng.randrange(10 ** 8)),
         Cfg("cwd-deep", cwd="deep"),
-        Cfg("tmpdir", tmp="t1"),
+        Cfg("tmpdir", tmp=T1),
         Cfg("env30", env=env30),
         Cfg("relpath", inp="rel", tool="rel"),
         Cfg("barename", cwd="src", inp="rel"),
         Cfg("tool-via-PATH", tool="path"),
         Cfg("aslr-off", prefix=("setarch", "-R")),
+        Cfg("perturb-01", env={"MALLOC_PERTURB_": "1"}),
         Cfg("perturb-55", env={"MALLOC_PERTURB_": "85"}),
+        Cfg("perturb-a5", env={"MALLOC_PERTURB_": "165"}),
         Cfg("perturb-aa", env={"MALLOC_PERTURB_": "170"}),
+        Cfg("perturb-ff", env={"MALLOC_PERTURB_": "255"}),
         Cfg("arena-max", env=tcache_off),
         Cfg("mmap-all", env={"MALLOC_MMAP_THRESHOLD_": "0", "MALLOC_TOP_PAD_": "0"}),
-        Cfg("all-different", cwd="deep", inp="rel", tool="rel", tmp="t1", prefix=("setarch", "-R"),
+        Cfg("out-stale-longer", pre="longer"),
+        Cfg("out-stale-shorter", pre="shorter"),
+        Cfg("out-via-symlink", pre="symlink"),
+        Cfg("out-after-bigger-program", pre="bigger"),
+        Cfg("all-different", cwd="deep", inp="rel", tool="rel", tmp=T1, prefix=("setarch", "-R"),
             env=dict(env30, MALLOC_PERTURB_="85", MALLOC_ARENA_MAX="1"), mtime=1234567890),
     ]
     return cfgs
@@ -635,7 +743,7 @@ PATH_TOKEN = re.compile(r"[A-Za-z0-9_.+~\-]*/[A-Za-z0-9_.+~/\-]*")
 
 
 class Obs:
-    __slots__ = ("status", "sig", "timeout", "artifact", "sha", "diag", "raw", "cmd", "vg")
+    __slots__ = ("status", "sig", "timeout", "artifact", "sha", "diag", "raw", "cmd", "vg", "extra")
 
     def key(self):
         return (self.status, self.sha, self.diag)
@@ -703,10 +811,20 @@ def _vg_errors(log, root):
     return out
 
 
-def _compile(flv, prog, cfg, tool, valgrind=False):
+STALE = b"NLV-STALE-OUTPUT-OF-AN-EARLIER-BUILD\n"
+HIST_EXTRA = "".join("""
+fn nlv_hist_extra_%d(n: int) -> int {
+    (println "nlv history padding %d: this function exists only in the bigger earlier revision")
+    return (+ n %d)
+}
+shadow nlv_hist_extra_%d { assert (== (nlv_hist_extra_%d 1) %d) }
+""" % (i, i, 1000 + i, i, i, 1001 + i) for i in range(8))
+
+
+def _compile(flv, prog, cfg, tool, valgrind=False, base_len=0, flavor_san=False):
     cwd = {"c": os.path.join(prog.root, "c"), "deep": prog.deep, "src": prog.src}[cfg.cwd]
     tmp = os.path.join(prog.root, cfg.tmp)
-    outdir = os.path.join(prog.root, "o", cfg.name + ("-vg" if valgrind else ""), tool)
+    outdir = os.path.join(prog.root, "o", cfg.name + ("-vg" if valgrind else "") + ("-asan" if flavor_san else ""), tool)
     os.makedirs(outdir, exist_ok=True)
     exe = flv.nano_virt if tool == "nvm" else flv.nanoc
     env = {"PATH": "/usr/bin:/bin", "HOME": os.path.join(prog.root, "home"), "LANG": "C", "TMPDIR": tmp}
@@ -723,41 +841,98 @@ def _compile(flv, prog, cfg, tool, valgrind=False):
         for rel in prog.files:
             os.utime(os.path.join(prog.src, rel), (cfg.mtime, cfg.mtime))
     genc = prog.input + ".genC"
+    # every file the tool itself writes (path -> role); the first one is THE artifact
     if tool == "nvm":
         art = os.path.join(outdir, "x.nvm")
         cmd = [exe_arg, inp, "--emit-nvm", "-o", art]
+        outs = [art]
     else:
-        art = os.path.join(outdir, "x.genC")
+        art = genc
         env["NANO_CC"] = "/bin/true"
         cmd = [exe_arg, inp, "-S", "-o", os.path.join(outdir, "out")]
-        if os.path.lexists(genc):
-            os.unlink(genc)
-    if os.path.lexists(art):
-        os.unlink(art)
+        outs = [genc]
+        if cfg.pre:
+            # --keep-c makes nanoc write a second copy of the generated C itself (<output>.c): one more output path
+            cmd.append("--keep-c")
+            outs.append(os.path.join(outdir, "out.c"))
+    for q in outs + [os.path.join(outdir, "out")]:
+        if os.path.lexists(q):
+            os.unlink(q)
     vlog = None
     if valgrind:
         vlog = os.path.join(outdir, "memcheck.log")
         cmd = ["valgrind", "--tool=memcheck", "--track-origins=yes", "--error-exitcode=95", "-q", "--vgdb=no",
                "--malloc-fill=0xA5", "--free-fill=0x5A", "--log-file=" + vlog] + cmd
     cmd = list(cfg.prefix) + cmd
-    r = sh(cmd, cwd=cwd, env=env, merge_env=False, cpu=(VG_CPU if valgrind else 60), wall=(1800 if valgrind else 600))
+    pre_note = ""
+    if cfg.pre:
+        stale_len = max(2 * base_len + 4096, 65536)
+        stale = (STALE * (stale_len // len(STALE) + 1))[:stale_len]
+        if cfg.pre == "bigger":
+            # an earlier, bigger revision of the same program is compiled to the same output paths first
+            mainp = prog.input
+            orig = prog.files[prog.main]
+            try:
+                with open(mainp, "wb") as f:
+                    f.write(orig.rstrip(b"\n") + b"\n" + HIST_EXTRA.encode())
+                sh(cmd, cwd=cwd, env=env, merge_env=False, cpu=60, wall=600)
+            finally:
+                with open(mainp, "wb") as f:
+                    f.write(orig)
+            grown = [q for q in outs if os.path.exists(q) and os.path.getsize(q) > base_len]
+            pre_note = "earlier bigger revision compiled first (%d of %d output files left behind longer)" % (len(grown), len(outs))
+            for q in outs:
+                if q not in grown:            # the bigger revision did not compile: fall back to a stale longer file
+                    with open(q, "wb") as f:
+                        f.write(stale)
+        else:
+            for q in outs:
+                if cfg.pre == "symlink":
+                    tgt = os.path.join(outdir, "stale-target-" + os.path.basename(q))
+                    with open(tgt, "wb") as f:
+                        f.write(stale)
+                    os.symlink(tgt, q)
+                else:
+                    with open(q, "wb") as f:
+                        f.write(stale if cfg.pre == "longer" else STALE[:10])
+            pre_note = "output paths pre-populated: %s" % cfg.pre
+    planted = {}
+    for q in outs:
+        if os.path.exists(q):
+            with open(q, "rb") as f:
+                planted[q] = hashlib.sha256(f.read()).digest()
+    r = sh(cmd, cwd=cwd, env=env, merge_env=False, cpu=(VG_CPU if valgrind else 60), wall=(1800 if valgrind else 600),
+           san=flavor_san)
     if r.rc in (126, 127) and not os.path.exists(exe):
         # the build cache entry was pruned under our feet (many builds going on): harness failure, not an observation
         raise RuntimeError("tool binary %s vanished during the run (build cache pruned?)" % exe)
     o = Obs()
     o.cmd = "cd %s && env -i %s %s" % (cwd, " ".join("%s='%s'" % kv for kv in sorted(env.items())), " ".join(cmd))
+    if pre_note:
+        o.cmd += "\n# before this command: " + pre_note
     o.status = r.status
     o.sig = r.sig
     o.timeout = bool(r.timeout or r.cpu_exceeded)
-    if tool == "genC" and os.path.exists(genc):
-        os.replace(genc, art)
     o.artifact = None
     o.sha = None
-    if os.path.exists(art):
-        with open(art, "rb") as f:
-            o.artifact = f.read()
+    o.extra = None
+    def read_out(q):
+        if not os.path.exists(q):
+            return None
+        with open(q, "rb") as f:
+            data = f.read()
+        if r.status != 0 and planted.get(q) == hashlib.sha256(data).digest():
+            return None                       # the tool failed and never touched the stale file we planted: no output
+        return data
+
+    o.artifact = read_out(art)
+    if o.artifact is not None:
         o.sha = hashlib.sha256(o.artifact).hexdigest()
-        os.unlink(art)                        # keep the scratch small; bytes are kept only when needed (below)
+    if len(outs) > 1:
+        o.extra = read_out(outs[1])
+    for q in outs:                            # keep the scratch small; bytes are kept in memory only
+        if os.path.lexists(q):
+            os.unlink(q)
     o.raw = "--- stdout\n" + r.text() + "--- stderr\n" + r.errtext()
     o.diag = _normalise(o.raw, cwd, prog, tmp, outdir, flv)
     o.vg = None
@@ -791,9 +966,27 @@ def _line_class(line):
     return "code"
 
 
-def classify_genc_diff(a, b, same_file):
+GENC_CAUSES = ("module-path-embedded", "toplevel-let-folded-at-compile-time")
+IMPURE_BUILTINS = ("getcwd", "getenv")
+TOPLEVEL_LET = re.compile(rb"(?m)^let\s+(?!mut\b)\w+\s*:\s*[\w<>]+\s*=\s*(.*)$")
+NUM_LITERAL = re.compile(r"(?<![\w.])-?\d+(?:\.\d+)?(?:e[+-]?\d+)?(?:LL)?(?![\w.])|\b(?:true|false)\b")
+
+
+def _impure_toplevel_lets(prog):
+    """Names of environment-reading builtins called in the initialiser of a top-level immutable `let` of the program."""
+    found = set()
+    for data in prog.files.values():
+        for m in TOPLEVEL_LET.finditer(data):
+            for b in IMPURE_BUILTINS:
+                if re.search(rb"\(\s*" + b.encode() + rb"\b", m.group(1)):
+                    found.add(b)
+    return found
+
+
+def classify_genc_diff(a, b, same_file, impure=None):
     """a, b: bytes of two generated C files.  same_file(pa, pb) -> True when the two path spellings denote the same
-    module file.  Returns (key_suffix, description)."""
+    module file.  impure: environment-reading builtins used in top-level immutable lets of the program.
+    Returns (key_suffix, description)."""
     la = a.decode("utf-8", "replace").split("\n")
     lb = b.decode("utf-8", "replace").split("\n")
     if len(la) != len(lb):
@@ -805,6 +998,7 @@ def classify_genc_diff(a, b, same_file):
                 "line counts differ (%d vs %d); first difference at line %d:\n< %s\n> %s" % (
                     len(la), len(lb), k + 1, la[k][:300] if k < len(la) else "<eof>", lb[k][:300] if k < len(lb) else "<eof>"))
     modpath = 0
+    folded = []
     for i, (x, y) in enumerate(zip(la, lb)):
         if x == y:
             continue
@@ -820,9 +1014,49 @@ def classify_genc_diff(a, b, same_file):
         if ok:
             modpath += 1
             continue
+        if impure and '"' not in x and NUM_LITERAL.sub("N", x) == NUM_LITERAL.sub("N", y):
+            folded.append((i + 1, x.strip(), y.strip()))     # the lines differ only in a numeric / boolean literal
+            continue
         return ("other-diff|" + _line_class(x), "line %d differs:\n< %s\n> %s" % (i + 1, x[:400], y[:400]))
+    if folded:
+        return ("toplevel-let-folded-at-compile-time|" + "+".join(sorted(impure)),
+                "%d line(s) differ only in a numeric literal, and the program initialises a top-level immutable `let` from %s: "
+                "the initialiser was evaluated by the compiler and its value inlined, e.g. line %d: %s  vs  %s" % (
+                    len(folded), "/".join(sorted(impure)), folded[0][0], folded[0][1][:120], folded[0][2][:120]))
     return ("module-path-embedded", "%d line(s) differ, all of them the spelling of an imported module's path "
             "(/* Module: .. (path: ..) */ and ___module_path_<m>())" % modpath)
+
+
+ASAN_HEAD = re.compile(r"ERROR: (AddressSanitizer|UndefinedBehaviorSanitizer): ([\w-]+)")
+ASAN_FRAME = re.compile(r"^\s+#\d+ 0x[0-9a-f]+ in (\S+) (\S+)", re.M)
+
+
+def _asan_key(text):
+    """(key, report) for the first AddressSanitizer error in `text`: kind, access, the first three in-repo frames of the
+    access stack and the first two in-repo frames of the free/allocation stack (line numbers stripped)."""
+    m = ASAN_HEAD.search(text)
+    if not m:
+        m2 = re.search(r"^(\S+:\d+:\d+): runtime error: (.*)$", text, re.M)
+        if not m2:
+            return None
+        return ("ubsan|" + re.sub(r"\d+", "N", m2.group(2))[:60] + "|" + re.sub(r":\d+:\d+$", "", m2.group(1).split("/")[-1]),
+                text[m2.start():m2.start() + 3000])
+    rep = text[m.start():m.start() + 6000]
+    parts = re.split(r"(?m)^(?:freed by thread .*|previously allocated by thread .*|allocated by thread .*)$", rep)
+
+    def frames(block, n):
+        out = []
+        for fm in ASAN_FRAME.finditer(block):
+            if "src/" in fm.group(2) and not fm.group(2).startswith("../"):
+                out.append(fm.group(1))
+                if len(out) >= n:
+                    break
+        return out
+    acc = re.search(r"^(READ|WRITE) of size (\d+)", rep, re.M)
+    key = "asan|%s|%s|%s" % (m.group(2), (acc.group(1) + acc.group(2)) if acc else "-", ">".join(frames(parts[0], 3)) or "?")
+    if len(parts) > 1:
+        key += "|then:" + (">".join(frames(parts[1], 2)) or "?")
+    return key, rep
 
 
 NVM_SECTION_NAMES = {1: "code", 2: "strings", 3: "functions", 4: "structs", 5: "enums", 6: "unions", 7: "globals",
@@ -944,7 +1178,9 @@ def _job(arg):
             pass
         for cfg in cfgs:
             for tool in TOOLS:
-                res["obs"][(cfg.name, tool)] = _compile(flv, prog, cfg, tool)
+                b = res["obs"].get(("baseline", tool))
+                res["obs"][(cfg.name, tool)] = _compile(flv, prog, cfg, tool,
+                                                        base_len=len(b.artifact) if b is not None and b.artifact else 0)
         if do_vg:
             for tool in TOOLS:
                 res["vg"][tool] = _compile(flv, prog, vg_cfg, tool, valgrind=True)
@@ -1038,7 +1274,8 @@ def run(ctx):
                 i = counter[0]
                 counter[0] += 1
                 p.materialise(pbase, i)
-                p.cfgs = _pick_configs(cfgs, quick, n_cfg, i)
+                p.cfgs = ([c for c in cfgs if c.name == "baseline" or c.name in p.cfg_names] if p.cfg_names
+                          else _pick_configs(cfgs, quick, n_cfg, i))
                 jobs.append((flv, p, p.cfgs, j in vg_set, by_name[vg_rot[i % len(vg_rot)]]))
             return pmap(_job, jobs, workers=NCPU)
 
@@ -1076,6 +1313,10 @@ def run(ctx):
                 serial += 1
         results = results + phase(second, max(0, n_vg - share1))
 
+        # phase 3: the two constructed families (reduced configuration sets, no memcheck: asan names a cause when they differ)
+        fam = _sweep_programs(ctx.n(40, 70), SWEEP_CFGS if quick else SWEEP_CFGS_THOROUGH) + _impure_programs()
+        results = results + phase(fam, 0)
+
         # ---- verdicts -------------------------------------------------------------------------------------
         st = dict(programs=0, accepted_nvm=0, accepted_genC=0, rejected_nvm=0, rejected_genC=0, dropped_timeout=0,
                   compilations=0, pairs=0, pairs_equal=0, artifact_pairs=0, diag_only_pairs=0,
@@ -1110,6 +1351,41 @@ def run(ctx):
 
         def cwd_of(prog, cfg):
             return {"c": os.path.join(prog.root, "c"), "deep": prog.deep, "src": prog.src}[cfg.cwd]
+
+        asan_cache = {}
+        asan_stats = {"diagnoses": 0, "reports": 0}
+
+        def asan_diagnose(prog, tool):
+            """Re-run one tool on one program with the asan flavor (baseline configuration).  Returns (key, report) when
+            AddressSanitizer names a memory error, else None.  Only used to NAME the cause of an observed difference."""
+            k = (prog.hash, tool)
+            if k not in asan_cache:
+                asan_cache[k] = None
+                try:
+                    aflv = build.get("asan")
+                    o = _compile(aflv, prog, by_name["baseline"], tool, flavor_san=True)
+                    asan_stats["diagnoses"] += 1
+                    asan_cache[k] = _asan_key(o.raw)
+                    if asan_cache[k]:
+                        asan_stats["reports"] += 1
+                except Exception as ex:       # no asan build: the difference is still reported, under its generic key
+                    ctx.note("asan diagnosis unavailable: %s" % ex)
+            return asan_cache[k]
+
+        def viol(key, what, files, prog, tool, cfg, path_cause=False):
+            """Report a difference.  For the memory-layout dimensions the asan flavor is asked for the cause first: a
+            heap-use-after-free / overflow / uninitialised read in the compiler gets a key made of the error kind and its
+            call sites, so that the same defect has ONE key whatever program / perturbation exposed it."""
+            mem_dim = bool(cfg.prefix) or any(e.startswith(("MALLOC_", "GLIBC_")) for e in cfg.env) or cfg.name.startswith("memcheck")
+            if mem_dim and not path_cause:
+                d = asan_diagnose(prog, tool)
+                if d:
+                    files = dict(files)
+                    files["asan_report_%s.txt" % tool] = d[1]
+                    what = "%s\n[observed as: %s]\nAddressSanitizer (asan flavor, same program, baseline configuration):\n%s" % (
+                        what, key, "\n".join(d[1].splitlines()[:14]))
+                    key = d[0]
+            return ctx.violation(key, what, files)
 
         def srcfiles(prog):
             return {"src/" + k: v for k, v in prog.files.items()}
@@ -1158,9 +1434,9 @@ def run(ctx):
                         f = dict(common)
                         f["diag_baseline.txt"] = base.raw
                         f["diag_%s.txt" % cfg.name] = o.raw
-                        ctx.violation("status|%s|%s|%s->%s" % (tool, cfg.name, base.status, o.status),
-                                      "%s: exit status of %s differs between baseline (%s) and configuration '%s' (%s)"
-                                      % (prog.name, tool, base.status, cfg.name, o.status), f)
+                        viol("status|%s|%s|%s->%s" % (tool, cfg.name, base.status, o.status),
+                             "%s: exit status of %s differs between baseline (%s) and configuration '%s' (%s)"
+                             % (prog.name, tool, base.status, cfg.name, o.status), f, prog, tool, cfg)
                     elif base.sha != o.sha:
                         equal = False
                         f = dict(common)
@@ -1169,22 +1445,25 @@ def run(ctx):
                         if o.artifact is not None:
                             f["%s.%s" % (cfg.name, tool)] = o.artifact
                         if base.artifact is None or o.artifact is None:
-                            ctx.violation("%s|%s|artifact-missing" % (tool, cfg.name),
-                                          "%s: %s output file exists in only one of baseline / '%s'" % (prog.name, tool, cfg.name), f)
+                            viol("%s|%s|artifact-missing" % (tool, cfg.name),
+                                 "%s: %s output file exists in only one of baseline / '%s'" % (prog.name, tool, cfg.name), f,
+                                 prog, tool, cfg)
                         elif tool == "genC":
                             suffix, desc = classify_genc_diff(base.artifact, o.artifact,
-                                                              same_file_fn(prog, cwd_of(prog, by_name["baseline"]), cwd_of(prog, cfg)))
-                            key = "genC|" + suffix if suffix == "module-path-embedded" else "genC|%s|%s" % (suffix, cfg.name)
-                            ctx.violation(key, "%s (%s): generated C differs between baseline and configuration '%s': %s"
-                                          % (prog.name, prog.kind, cfg.name, desc), f)
+                                                              same_file_fn(prog, cwd_of(prog, by_name["baseline"]), cwd_of(prog, cfg)),
+                                                              _impure_toplevel_lets(prog) if (cfg.cwd != "c" or cfg.tmp != "t0") else set())
+                            cause = suffix.split("|")[0] in GENC_CAUSES
+                            key = "genC|" + suffix if cause else "genC|%s|%s" % (suffix, cfg.name)
+                            viol(key, "%s (%s): generated C differs between baseline and configuration '%s': %s"
+                                 % (prog.name, prog.kind, cfg.name, desc), f, prog, tool, cfg, path_cause=cause)
                         else:
                             where, desc = classify_nvm_diff(base.artifact, o.artifact,
                                                             same_file_fn(prog, cwd_of(prog, by_name["baseline"]), cwd_of(prog, cfg)),
                                                             is_direct_fn(prog, cwd_of(prog, by_name["baseline"])))
-                            key = "nvm|" + where if where.startswith("extern-module-path-embedded|") else "nvm|%s|%s" % (where, cfg.name)
-                            ctx.violation(key,
-                                          "%s (%s): .nvm differs between baseline and configuration '%s': %s"
-                                          % (prog.name, prog.kind, cfg.name, desc), f)
+                            cause = where.startswith("extern-module-path-embedded|")
+                            key = "nvm|" + where if cause else "nvm|%s|%s" % (where, cfg.name)
+                            viol(key, "%s (%s): .nvm differs between baseline and configuration '%s': %s"
+                                 % (prog.name, prog.kind, cfg.name, desc), f, prog, tool, cfg, path_cause=cause)
                     # diagnostics: only meaningful when neither run was killed by a signal (buffered stdout is lost)
                     if base.status == o.status and not base.sig and not o.sig and base.diag != o.diag:
                         equal = False
@@ -1194,9 +1473,19 @@ def run(ctx):
                         f["diag_%s.raw.txt" % cfg.name] = o.raw
                         f["diag_baseline.normalised.txt"] = base.diag
                         f["diag_%s.normalised.txt" % cfg.name] = o.diag
-                        ctx.violation("diag|%s|%s|%s" % (tool, cfg.name, cls),
-                                      "%s (%s): normalised diagnostics of %s differ between baseline and '%s': %s"
-                                      % (prog.name, prog.kind, tool, cfg.name, desc), f)
+                        viol("diag|%s|%s|%s" % (tool, cfg.name, cls),
+                             "%s (%s): normalised diagnostics of %s differ between baseline and '%s': %s"
+                             % (prog.name, prog.kind, tool, cfg.name, desc), f, prog, tool, cfg)
+                    # nanoc --keep-c (history configurations): the second copy of the generated C must be the same bytes
+                    if o.extra is not None and o.artifact is not None and o.extra != o.artifact:
+                        equal = False
+                        f = dict(common)
+                        f["%s.genC" % cfg.name] = o.artifact
+                        f["%s.keep-c.c" % cfg.name] = o.extra
+                        suffix, desc = classify_genc_diff(o.artifact, o.extra, lambda x, y: False, set())
+                        ctx.violation("genC|keep-c-copy-differs|%s|%s" % (suffix, cfg.name),
+                                      "%s (%s): in configuration '%s' the file written by --keep-c differs from <input>.genC of the "
+                                      "same run: %s" % (prog.name, prog.kind, cfg.name, desc), f)
                     if equal:
                         st["pairs_equal"] += 1
                         pd["equal"] += 1
@@ -1238,13 +1527,14 @@ def run(ctx):
                     if base.artifact is not None and o.artifact is not None:
                         if tool == "genC":
                             suffix, desc = classify_genc_diff(base.artifact, o.artifact,
-                                                              same_file_fn(prog, cwd_of(prog, by_name["baseline"]), cwd_of(prog, vcfg)))
+                                                              same_file_fn(prog, cwd_of(prog, by_name["baseline"]), cwd_of(prog, vcfg)),
+                                                              _impure_toplevel_lets(prog) if (vcfg.cwd != "c" or vcfg.tmp != "t0") else set())
                         else:
                             suffix, desc = classify_nvm_diff(base.artifact, o.artifact,
                                                              same_file_fn(prog, cwd_of(prog, by_name["baseline"]), cwd_of(prog, vcfg)),
                                                              is_direct_fn(prog, cwd_of(prog, by_name["baseline"])))
-                    if tool == "genC" and suffix == "module-path-embedded":
-                        key = "genC|module-path-embedded"
+                    if tool == "genC" and suffix.split("|")[0] in GENC_CAUSES:
+                        key = "genC|" + suffix
                     elif tool == "nvm" and suffix.startswith("extern-module-path-embedded|"):
                         key = "nvm|" + suffix
                     else:
